@@ -155,4 +155,76 @@ theorem c04_block_no_role_unchanged_combined (p : Params) (bal : List (Nat × In
       getBal (Core.step c .endBlock).1.bal a = getBal c.bal a)
     (fun cops hw => c04_block_no_role_unchanged p bal h t cops h0 hw) hc
 
+-- ---------------------------------------------------------------------------------------------
+-- the per-item step theorems, for a core step from the core component of a reachable combined state
+
+/-- the statement of `c03_settlement_payout` about the core step `op` from the core state `s` -/
+def cms_SettlementPayout (s : Core.State) (op : Core.Op) : Prop :=
+  let s' := (Core.step s op).1
+  ∀ x ∈ s.bets, x.status ≠ BS_SETTLED → ∀ x' ∈ s'.bets, x'.id = x.id → x'.status = BS_SETTLED →
+    op = .endBlock ∧
+    ∃ (m : Market) (τ τ' : Core.State),
+      getMarket s x.market = some m ∧ (∀ later, getMarket (Core.run s' later) x.market = some m) ∧
+      (m.status = MS_DECLARED ∨ m.status = MS_CANCELED ∨ m.status = MS_ABORTED) ∧
+      x' = { x with status := BS_SETTLED, result := x'.result, settleHeight := s.height } ∧
+      (x'.result = BR_WON ↔ m.status = MS_DECLARED ∧ x.odds ∈ m.winners) ∧
+      (x'.result = BR_LOST ↔ m.status = MS_DECLARED ∧ x.odds ∉ m.winners) ∧
+      (x'.result = BR_REFUNDED ↔ m.status = MS_CANCELED ∨ m.status = MS_ABORTED) ∧
+      x.amount = sumBet x.fulfs ∧
+      τ.height = s.height ∧ τ.markets = s.markets ∧ x ∈ τ.bets ∧ (x.market, x.id, x.uid, x.creator) ∈ τ.pending ∧
+      settleBet τ x.creator x.uid = some τ' ∧ τ'.bets = upsert Bet.key x' τ.bets ∧
+      ∀ pay : Int, pay = (if x'.result = BR_WON then sumBet x.fulfs + sumProfit x.fulfs
+                          else if x'.result = BR_REFUNDED then x.amount else 0) →
+      ∀ feeTo : Nat, feeTo = (if m.status = MS_DECLARED then m.creator else x.creator) →
+        ∀ a, getBal τ'.bal a = getBal τ.bal a
+              + (if a = x.creator then pay else 0) + (if a = feeTo then x.fee else 0)
+              - (if a = ACC_POOL then pay else 0) - (if a = ACC_BETFEE then x.fee else 0)
+
+/-- C03.m (combined), transfers `c03_settlement_payout`: take the core component `c` of any reachable combined state
+    and any core step `op` from it — in particular the core end-block inside a combined end-block
+    (`cms_endBlock_decomp`). If a bet (placed directly or through a subaccount; the bettor of a subaccount wager is the
+    OWNER) is unsettled in `c` and settled after `op`, then `op` is the end-block, the market is resolved, the new
+    record is the old one with status, result and settlement height, and the ONE `Settle` call that settled it moved
+    exactly: pool → bettor Σ (stake + promised profit) if WON, the recorded stake if REFUNDED, nothing if LOST; bet-fee
+    collector → market creator (declared) or bettor (cancelled / aborted) the fee; nothing else. -/
+theorem c03_settlement_payout_combined (p : Params) (bal : List (Nat × Int)) (h t : Nat) (we de : Bool) (ops : List Op)
+    (hwf : ∀ op ∈ ops, op.wf) (op : Core.Op) :
+    cms_SettlementPayout (run (init p bal h t we de) ops).core op :=
+  cml_transfer p bal h t we de ops hwf (fun c => cms_SettlementPayout c op)
+    (fun cops _ => c03_settlement_payout p bal h t cops op)
+
+/-- the statement of `c04_payout` about the core step `op` from the core state `s` -/
+def cms_Payout (s : Core.State) (op : Core.Op) : Prop :=
+  let s' := (Core.step s op).1
+  ∀ b ∈ s.books, ∀ pt ∈ b.parts, pt.isSettled = false →
+  ∀ b' ∈ s'.books, b'.uid = b.uid → ∀ pt' ∈ b'.parts, pt'.idx = pt.idx → pt'.isSettled = true →
+    op = .endBlock ∧
+    ∃ (m : Market) (τ τ' : Core.State) (bk bk' : Book) (q : Part),
+      getMarket s b.uid = some m ∧ isResolvedStatus m.status = true ∧
+      (∀ x ∈ s'.bets, x.market = b.uid → x.status = BS_SETTLED) ∧
+      q = { pt with actualProfit := lostStakeOn s'.bets b.uid pt.idx - wonProfitOn s'.bets b.uid pt.idx } ∧
+      τ.bets = s'.bets ∧ settlePart τ bk q m = some (τ', bk') ∧
+      ∀ pay : Int, pay = (if m.status = MS_DECLARED
+          then pt.liq + lostStakeOn s'.bets b.uid pt.idx - wonProfitOn s'.bets b.uid pt.idx else pt.liq) →
+      ∀ toDep : Bool, toDep = decide (m.status ≠ MS_DECLARED ∨ stakedOn s'.bets b.uid pt.idx = 0) →
+        (∀ a, getBal τ'.bal a = getBal τ.bal a
+              + (if a = pt.addr then pay else 0) + (if a = (if toDep then pt.addr else m.creator) then pt.fee else 0)
+              - (if a = ACC_POOL then pay else 0) - (if a = ACC_HOUSEFEE then pt.fee else 0)) ∧
+        pt' = { q with returned := pay + (if toDep then pt.fee else 0),
+                       reimbursedFee := (if toDep then pt.fee else pt.reimbursedFee), isSettled := true }
+
+/-- C04.i (combined), transfers `c04_payout`: take the core component `c` of any reachable combined state and any
+    user-signed core step `op` from it — in particular the core end-block inside a combined end-block. If a
+    participation (of a direct depositor or of a SUBACCOUNT ADDRESS: the depositor of a subaccount house deposit) is
+    unpaid in `c` and paid after `op`, then `op` is the end-block and the ONE `settleParticipation` call that paid it
+    moved exactly: pool → depositor liquidity + Σ lost stakes − Σ won profits of the parts naming it (declared) or the
+    liquidity (cancelled / aborted); house-fee collector → depositor or market creator the fee; nothing else. These
+    are the payments BEFORE the hooks; AfterHouseWin then forwards the profit subaccount address → owner (`cms_hookMove`). -/
+theorem c04_payout_combined (p : Params) (bal : List (Nat × Int)) (h t : Nat) (we de : Bool) (ops : List Op)
+    (h0 : getBal bal ACC_POOL = 0 ∧ getBal bal ACC_BETFEE = 0 ∧ getBal bal ACC_HOUSEFEE = 0)
+    (hwf : ∀ op ∈ ops, op.wf) (op : Core.Op) (hop : op.userSigned') :
+    cms_Payout (run (init p bal h t we de) ops).core op :=
+  cml_transfer p bal h t we de ops hwf (fun c => cms_Payout c op)
+    (fun cops hw => c04_payout p bal h t cops op h0 hw hop)
+
 end Sge.Combined
